@@ -127,10 +127,21 @@ pub fn cases(args: &[String]) {
         let (oc, opp) = reload(dirp);
         let overwrite = json!({"dumped": redumped, "class": oc, "same": opp == Some((b.to_bits(), m, a.to_bits(), q)) || (oc == 0 && opp.map(|x| (x.1, x.3)) == Some((m, q))),
                                "file": std::fs::read_to_string(&file).unwrap_or_default()});
-        out.push(json!({"b": b.to_bits(), "m": m, "a": a.to_bits(), "q": q, "dumped": dumped, "bytes": bytes, "overwrite": overwrite,
+        // ... and over an existing file that holds almost the same parameters (b and a 1 to 3 ulps away)
+        let ulp = 1 + rng.below(3);
+        let nearp = SetSketchParams::new(f64::from_bits(b.to_bits() + ulp), m, f64::from_bits(a.to_bits() - ulp), q);
+        let _ = std::fs::remove_file(&file);
+        let _ = nearp.dump_json(dirp);
+        let redumped2 = p.dump_json(dirp).is_ok();
+        let (oc2, opp2) = reload(dirp);
+        let near_overwrite = json!({"dumped": redumped2, "class": oc2, "ulps_before": ulp,
+            "b_ulps": opp2.map(|x| ulps(x.0, b.to_bits())), "a_ulps": opp2.map(|x| ulps(x.2, a.to_bits())),
+            "b_digits": sig_digits(&btok), "a_digits": sig_digits(&atok), "mq_same": opp2.map(|x| (x.1, x.3)) == Some((m, q))});
+        out.push(json!({"b": b.to_bits(), "m": m, "a": a.to_bits(), "q": q, "dumped": dumped, "bytes": bytes, "overwrite": overwrite, "near_overwrite": near_overwrite,
                         "btok": btok.as_bytes(), "atok": atok.as_bytes(), "missing": missing, "roundtrip": roundtrip,
                         "prefixes": prefixes, "edits": ed}));
     }
     let _ = std::fs::remove_file(&file);
+    crate::util::wd_pause();
     println!("{}", json!({ "cases": out }));
 }
